@@ -850,9 +850,15 @@ func (a *Agent) DownloadAdd(FileID int, FilePath string, FileSize int64) error {
 		DemonDownload    = DemonDownloadDir + "/" + strings.Join(FileSplit[:len(FileSplit)-1], "/")
 	)
 
-	/* check if we don't have a path traversal */
+	/* a file id names one running transfer */
+	if a.DownloadGet(FileID) != nil {
+		logger.Error(fmt.Sprintf("Download file id %x is already in use. abort", FileID))
+		return errors.New(fmt.Sprintf("Download file id %x is already in use. abort", FileID))
+	}
+
+	/* check if we don't have a path traversal ("Download2" is not inside "Download") */
 	path := filepath.Clean(DemonDownload)
-	if !strings.HasPrefix(path, DemonDownloadDir) {
+	if base := filepath.Clean(DemonDownloadDir); path != base && !strings.HasPrefix(path, base+"/") {
 		logger.Error("File didn't started with agent download path. abort")
 		return errors.New("File didn't started with agent download path. abort")
 	}
@@ -866,6 +872,14 @@ func (a *Agent) DownloadAdd(FileID int, FilePath string, FileSize int64) error {
 
 	/* remove null terminator. goland doesn't like it. */
 	DownloadFile = common.StripNull(DownloadFile)
+
+	/* don't truncate a file that another running transfer is still writing to */
+	for i := range a.Downloads {
+		if a.Downloads[i].LocalFile == DemonDownload+"/"+DownloadFile {
+			logger.Error("File is already being downloaded: " + DownloadFile)
+			return errors.New("File is already being downloaded: " + DownloadFile)
+		}
+	}
 
 	download.File, err = os.Create(DemonDownload + "/" + DownloadFile)
 	if err != nil {
